@@ -1,68 +1,196 @@
 // @anchor src/chunk/mod.rs
-//! C10 (assembly level) — the real `Chunk::open` on a ghost chunk file.
+//! C10 / C09 (assembly level) — the real `Chunk::open` on ghost chunk files:
+//! open_chunk_file, metadata, load_records_iter, RecordIterator, the record
+//! codec, handle_record_error, verify_trailing_zeros, set_len + sync_all.
+//!
+//! Images are laid down by `kani_support::image::Img`: record shapes and the
+//! file length are constants, every id / payload byte is symbolic. Each
+//! harness enumerates its cut positions / tail lengths in a concrete loop, one
+//! real `Chunk::open` per position.
 use super::*;
-use crate::kani_support::env_proof;
+use crate::kani_support::common::replay_config;
 use crate::kani_support::ghost_fs as gfs;
-use crate::kani_support::ktypes::*;
-use crate::kani_support::stubs;
-use crate::raft_log::state_machine::raft_log_state::RaftLogState;
-use codeq::Encode;
 use crate::kani_support::image::Img;
+use crate::kani_support::ktypes::*;
+use crate::kani_support::replay_proof;
 
-macro_rules! open_proof {
-    (unwind = $u:expr, fn $name:ident() $body:block) => {
-        env_proof! {
-            unwind = $u, crc = off,
-            #[kani::stub(crate::config::Config::read_buffer_size, stubs::cfg_read_buffer_size)]
-            #[kani::stub(crate::config::Config::truncate_incomplete_record, stubs::cfg_truncate_incomplete_record)]
-            fn $name() $body
-        }
-    };
+type Id = (u8, u8);
+
+struct Sym {
+    c: Id,
+    a: Id,
+    b: u8,
+    v: Id,
 }
 
-fn cfg(truncate: Option<bool>) -> Arc<Config> {
-    unsafe {
-        stubs::CFG_READ_BUF = 0;
-        stubs::CFG_TRUNCATE = truncate.unwrap_or(true);
-    }
-    Arc::new(Config {
-        dir: String::new(),
-        log_cache_max_items: None,
-        log_cache_capacity: None,
-        // 0: BufReader hands every read straight to the file (std bypasses an
-        // empty buffer for reads >= capacity)
-        read_buffer_size: Some(0),
-        chunk_max_records: None,
-        chunk_max_size: None,
-        truncate_incomplete_record: truncate,
-    })
+fn sym() -> Sym {
+    Sym { c: kani::any(), a: kani::any(), b: kani::any(), v: kani::any() }
 }
 
-fn image3() -> (usize, usize, usize) {
+/// [State(empty) | Commit c | Append a (1 byte) | <last>]; returns the record ends
+fn image(s: &Sym, last: u8) -> [usize; 4] {
     unsafe { gfs::FORCE_SLOT = Some(0) };
     let mut im = Img::new(0, 0);
     let e0 = im.state(None, None, None, None, None);
-    let e1 = im.commit(kani::any());
-    let e2 = im.append(kani::any(), P { n: 1, b: kani::any() });
+    let e1 = im.commit(s.c);
+    let e2 = im.append(s.a, PR::new(1, s.b));
+    let e3 = match last {
+        0 => im.vote(s.v),
+        1 => im.append(s.v, PR::new(2, s.b)),
+        2 => im.commit(s.v),
+        3 => im.truncate_after(None),
+        4 => im.purge(s.v),
+        5 => im.state(Some(s.v), Some(s.a), None, None, Some(s.b)),
+        _ => im.truncate_after(Some(s.v)),
+    };
     im.commit_len();
-    (e0, e1, e2)
+    [e0, e1, e2, e3]
 }
 
-// @harness name=c10x_open_full prop=C10 tier=quick timeout=900
-open_proof! {
-    unwind = 10,
-    fn c10x_open_full() {
-        let (e0, e1, e2) = image3();
-        gfs::fs().files[0].len = e2 as u64;
-        let r = Chunk::<OTypes>::open(cfg(None), ChunkId(0));
+fn reset_counters() {
+    let f = &mut gfs::fs().files[0];
+    f.n_set_len = 0;
+    f.n_sync_ok = 0;
+    f.n_write = 0;
+}
+
+/// the first three records came back exactly as laid down
+fn check_prefix(s: &Sym, c: &Chunk<RTypes>, recs: &Vec<WALRecord<RTypes>>, ends: &[usize; 4], n: usize) {
+    assert!(recs.len() == n, "number of recovered records is not the number of complete records");
+    assert!(c.global_offsets.len() == n + 1);
+    assert!(c.global_offsets[0] == 0);
+    let mut i = 0;
+    while i < 4 {
+        if i < n {
+            assert!(c.global_offsets[i + 1] == ends[i] as u64, "record boundary differs from where the record was written");
+        }
+        i += 1;
+    }
+    if n >= 1 {
+        match &recs[0] {
+            WALRecord::State(st) => assert!(st.vote.is_none() && st.last.is_none() && st.committed.is_none() && st.purged.is_none() && st.user_data.is_none(), "head state altered"),
+            _ => assert!(false, "record 0 is not the head state"),
+        }
+    }
+    if n >= 2 {
+        match &recs[1] {
+            WALRecord::Commit(id) => assert!(*id == s.c, "commit id altered"),
+            _ => assert!(false, "record 1 is not the commit"),
+        }
+    }
+    if n >= 3 {
+        match &recs[2] {
+            WALRecord::Append(id, p) => assert!(*id == s.a && p.n == 1 && p.b == s.b, "append altered"),
+            _ => assert!(false, "record 2 is not the append"),
+        }
+    }
+}
+
+/// cut the file at every byte position inside the last record: exactly the
+/// three complete records are recovered and the file is cut back to their end
+/// cut positions `ends[2] + from .. min(ends[2] + to, ends[3])`
+fn cut_range(last: u8, from: usize, to: usize) {
+    let s = sym();
+    let ends = image(&s, last);
+    let mut cut = ends[2] + from;
+    while cut < ends[3] && cut < ends[2] + to {
+        gfs::fs().files[0].len = cut as u64;
+        reset_counters();
+        let r = Chunk::<RTypes>::open(replay_config(None), ChunkId(0));
         match r {
             Ok((c, recs)) => {
-                assert!(recs.len() == 3, "all three complete records recovered");
-                assert!(c.global_offsets.len() == 4);
-                assert!(c.global_offsets[1] == e0 as u64 && c.global_offsets[2] == e1 as u64 && c.global_offsets[3] == e2 as u64);
-                assert!(c.truncated.is_none());
-                assert!(gfs::fs().files[0].n_set_len == 0);
-                kani::cover!(true, "opened");
+                check_prefix(&s, &c, &recs, &ends, 3);
+                assert!(c.truncated == Some(cut as u64), "truncation not recorded");
+                let f = &gfs::fs().files[0];
+                assert!(f.len == ends[2] as u64, "file not cut back to the end of the last complete record");
+                assert!(f.n_set_len == 1 && f.n_sync_ok == 1 && f.synced_len == f.len, "cut-back must be made durable");
+                kani::cover!(true, "torn record cut away");
+                core::mem::forget(c);
+                core::mem::forget(recs);
+            }
+            Err(e) => {
+                core::mem::forget(e);
+                assert!(false, "a torn tail made open fail although truncation is enabled");
+            }
+        }
+        cut += 1;
+    }
+}
+
+// every cut position of every record kind, four positions per harness
+// (symbolic execution time grows faster than linearly with the number of
+// `Chunk::open` calls in one harness)
+// @harness name=c10_cut_vote_01 prop=C10 tier=quick timeout=900 fs=512
+replay_proof! { unwind = 10, crc = off, fn c10_cut_vote_01() { cut_range(0, 1, 5); } }
+// @harness name=c10_cut_vote_05 prop=C10 tier=quick timeout=900 fs=512
+replay_proof! { unwind = 10, crc = off, fn c10_cut_vote_05() { cut_range(0, 5, 9); } }
+// @harness name=c10_cut_vote_09 prop=C10 tier=quick timeout=900 fs=512
+replay_proof! { unwind = 10, crc = off, fn c10_cut_vote_09() { cut_range(0, 9, 13); } }
+// @harness name=c10_cut_vote_13 prop=C10 tier=quick timeout=900 fs=512
+replay_proof! { unwind = 10, crc = off, fn c10_cut_vote_13() { cut_range(0, 13, 14); } }
+// @harness name=c10_cut_append_01 prop=C10 tier=thorough timeout=900 fs=512
+replay_proof! { unwind = 10, crc = off, fn c10_cut_append_01() { cut_range(1, 1, 5); } }
+// @harness name=c10_cut_append_05 prop=C10 tier=quick timeout=900 fs=512
+replay_proof! { unwind = 10, crc = off, fn c10_cut_append_05() { cut_range(1, 5, 9); } }
+// @harness name=c10_cut_append_09 prop=C10 tier=thorough timeout=900 fs=512
+replay_proof! { unwind = 10, crc = off, fn c10_cut_append_09() { cut_range(1, 9, 13); } }
+// @harness name=c10_cut_append_13 prop=C10 tier=thorough timeout=900 fs=512
+replay_proof! { unwind = 10, crc = off, fn c10_cut_append_13() { cut_range(1, 13, 17); } }
+// @harness name=c10_cut_truncnone_01 prop=C10 tier=thorough timeout=900 fs=512
+replay_proof! { unwind = 10, crc = off, fn c10_cut_truncnone_01() { cut_range(3, 1, 5); } }
+// @harness name=c10_cut_truncnone_05 prop=C10 tier=thorough timeout=900 fs=512
+replay_proof! { unwind = 10, crc = off, fn c10_cut_truncnone_05() { cut_range(3, 5, 9); } }
+// @harness name=c10_cut_truncnone_09 prop=C10 tier=thorough timeout=900 fs=512
+replay_proof! { unwind = 10, crc = off, fn c10_cut_truncnone_09() { cut_range(3, 9, 13); } }
+// @harness name=c10_cut_purge_01 prop=C10 tier=thorough timeout=900 fs=512
+replay_proof! { unwind = 10, crc = off, fn c10_cut_purge_01() { cut_range(4, 1, 5); } }
+// @harness name=c10_cut_purge_05 prop=C10 tier=thorough timeout=900 fs=512
+replay_proof! { unwind = 10, crc = off, fn c10_cut_purge_05() { cut_range(4, 5, 9); } }
+// @harness name=c10_cut_purge_09 prop=C10 tier=thorough timeout=900 fs=512
+replay_proof! { unwind = 10, crc = off, fn c10_cut_purge_09() { cut_range(4, 9, 13); } }
+// @harness name=c10_cut_purge_13 prop=C10 tier=thorough timeout=900 fs=512
+replay_proof! { unwind = 10, crc = off, fn c10_cut_purge_13() { cut_range(4, 13, 14); } }
+// @harness name=c10_cut_state_01 prop=C10 tier=quick timeout=900 fs=512
+replay_proof! { unwind = 10, crc = off, fn c10_cut_state_01() { cut_range(5, 1, 5); } }
+// @harness name=c10_cut_state_05 prop=C10 tier=thorough timeout=900 fs=512
+replay_proof! { unwind = 10, crc = off, fn c10_cut_state_05() { cut_range(5, 5, 9); } }
+// @harness name=c10_cut_state_09 prop=C10 tier=thorough timeout=900 fs=512
+replay_proof! { unwind = 10, crc = off, fn c10_cut_state_09() { cut_range(5, 9, 13); } }
+// @harness name=c10_cut_state_13 prop=C10 tier=thorough timeout=900 fs=512
+replay_proof! { unwind = 10, crc = off, fn c10_cut_state_13() { cut_range(5, 13, 17); } }
+// @harness name=c10_cut_state_17 prop=C10 tier=thorough timeout=900 fs=512
+replay_proof! { unwind = 10, crc = off, fn c10_cut_state_17() { cut_range(5, 17, 21); } }
+// @harness name=c10_cut_state_21 prop=C10 tier=quick timeout=900 fs=512
+replay_proof! { unwind = 10, crc = off, fn c10_cut_state_21() { cut_range(5, 21, 23); } }
+// @harness name=c10_cut_truncsome_01 prop=C10 tier=thorough timeout=900 fs=512
+replay_proof! { unwind = 10, crc = off, fn c10_cut_truncsome_01() { cut_range(6, 1, 5); } }
+// @harness name=c10_cut_truncsome_05 prop=C10 tier=thorough timeout=900 fs=512
+replay_proof! { unwind = 10, crc = off, fn c10_cut_truncsome_05() { cut_range(6, 5, 9); } }
+// @harness name=c10_cut_truncsome_09 prop=C10 tier=thorough timeout=900 fs=512
+replay_proof! { unwind = 10, crc = off, fn c10_cut_truncsome_09() { cut_range(6, 9, 13); } }
+// @harness name=c10_cut_truncsome_13 prop=C10 tier=thorough timeout=900 fs=512
+replay_proof! { unwind = 10, crc = off, fn c10_cut_truncsome_13() { cut_range(6, 13, 15); } }
+
+/// complete image: everything recovered, nothing touched
+// @harness name=c10_open_complete prop=C10 tier=quick timeout=900 fs=512
+replay_proof! {
+    unwind = 10, crc = off,
+    fn c10_open_complete() {
+        let s = sym();
+        let ends = image(&s, 2);
+        let r = Chunk::<RTypes>::open(replay_config(None), ChunkId(0));
+        match r {
+            Ok((c, recs)) => {
+                check_prefix(&s, &c, &recs, &ends, 4);
+                assert!(c.global_offsets[4] == ends[3] as u64);
+                match &recs[3] {
+                    WALRecord::Commit(id) => assert!(*id == s.v),
+                    _ => assert!(false, "record 3 is not the commit"),
+                }
+                assert!(c.truncated.is_none(), "complete chunk reported as truncated");
+                let f = &gfs::fs().files[0];
+                assert!(f.n_set_len == 0 && f.n_write == 0 && f.len == ends[3] as u64, "complete chunk file modified by open");
+                kani::cover!(true, "complete chunk opened");
                 core::mem::forget(c);
                 core::mem::forget(recs);
             }
@@ -74,3 +202,169 @@ open_proof! {
     }
 }
 
+/// zero-filled tail of z bytes after three complete records
+fn zero_tail(z: usize, truncate: Option<bool>) {
+    let s = sym();
+    let ends = image(&s, 2);
+    // overwrite the last record's area (and beyond) with zeros
+    let mut i = 0;
+    while i < 24 {
+        if i < z {
+            gfs::bytes(0)[ends[2] + i] = 0;
+        }
+        i += 1;
+    }
+    gfs::fs().files[0].len = (ends[2] + z) as u64;
+    reset_counters();
+    let on = truncate.unwrap_or(true);
+    let r = Chunk::<RTypes>::open(replay_config(truncate), ChunkId(0));
+    match r {
+        Ok((c, recs)) => {
+            assert!(on, "zero tail accepted although truncation is disabled");
+            check_prefix(&s, &c, &recs, &ends, 3);
+            let f = &gfs::fs().files[0];
+            assert!(f.len == ends[2] as u64 && f.n_set_len == 1 && f.n_sync_ok == 1, "zero tail not cut back durably");
+            assert!(c.truncated == Some((ends[2] + z) as u64));
+            kani::cover!(true, "zero tail truncated");
+            core::mem::forget(c);
+            core::mem::forget(recs);
+        }
+        Err(e) => {
+            core::mem::forget(e);
+            assert!(!on, "a zero-filled tail made open fail although truncation is enabled");
+            let f = &gfs::fs().files[0];
+            assert!(f.n_set_len == 0 && f.n_write == 0 && f.len == (ends[2] + z) as u64, "refused open modified the file");
+            kani::cover!(true, "zero tail refused, file untouched");
+        }
+    }
+}
+
+// tail lengths: shorter than a type word, exactly one, shorter than the
+// shortest record, longer than it (decodes as SaveVote((0,0)) with checksum 0:
+// with real CRC the checksum of 6 zero bytes is not 0, so this is "damaged";
+// with crc=off it would be a valid record - hence crc = real here)
+// @harness name=c10_zero_tail_3 prop=C10 tier=quick timeout=900 fs=512 allow_unsat=refused
+replay_proof! { unwind = 26, crc = real, fn c10_zero_tail_3() { zero_tail(3, None); } }
+// @harness name=c10_zero_tail_4 prop=C10 tier=thorough timeout=900 fs=512 allow_unsat=refused
+replay_proof! { unwind = 26, crc = real, fn c10_zero_tail_4() { zero_tail(4, None); } }
+// @harness name=c10_zero_tail_9 prop=C10 tier=quick timeout=900 fs=512 allow_unsat=refused
+replay_proof! { unwind = 26, crc = real, fn c10_zero_tail_9() { zero_tail(9, None); } }
+// @harness name=c10_zero_tail_20 prop=C10 tier=quick timeout=1200 fs=512 allow_unsat=refused
+replay_proof! { unwind = 26, crc = real, fn c10_zero_tail_20() { zero_tail(20, Some(true)); } }
+// @harness name=c10_zero_tail_9_off prop=C10 tier=quick timeout=900 fs=512 allow_unsat=truncated
+replay_proof! { unwind = 26, crc = real, fn c10_zero_tail_9_off() { zero_tail(9, Some(false)); } }
+
+/// truncation disabled: any cut makes open fail and leaves the file untouched
+// @harness name=c10_cut_off prop=C10 tier=quick timeout=900 fs=512
+replay_proof! {
+    unwind = 10, crc = off,
+    fn c10_cut_off() {
+        let s = sym();
+        let ends = image(&s, 2);
+        let mut k = 0;
+        while k < 3 {
+            // first byte, middle, one byte short
+            let cut = if k == 0 { ends[2] + 1 } else if k == 1 { ends[2] + 5 } else { ends[3] - 1 };
+            gfs::fs().files[0].len = cut as u64;
+            reset_counters();
+            let r = Chunk::<RTypes>::open(replay_config(Some(false)), ChunkId(0));
+            match r {
+                Ok(x) => {
+                    core::mem::forget(x);
+                    assert!(false, "torn tail accepted although truncation is disabled");
+                }
+                Err(e) => {
+                    core::mem::forget(e);
+                    let f = &gfs::fs().files[0];
+                    assert!(f.n_set_len == 0 && f.n_write == 0 && f.len == cut as u64, "refused open modified the file");
+                    kani::cover!(k == 2, "refused one byte short");
+                }
+            }
+            k += 1;
+        }
+    }
+}
+
+// ---------------------------------------------------------------- C09: altered bytes
+//
+// One byte of a completely written record is altered (xor with an arbitrary
+// non-zero mask), checksums are the real CRC-32. `Chunk::open` must fail and
+// must not touch the file.
+
+/// flip positions `rec_start + from .. rec_start + to` of record `rec` (1 = head
+/// State, 2 = Commit, 3 = Append, 4 = the last record)
+fn flip_range(last: u8, rec: usize, from: usize, to: usize) {
+    let s = sym();
+    let ends = image(&s, last);
+    let start = if rec == 1 { 0 } else { ends[rec - 2] };
+    let mut k = from;
+    while k < to {
+        let pos = start + k;
+        let mask: u8 = kani::any();
+        kani::assume(mask != 0);
+        let old = gfs::bytes(0)[pos];
+        gfs::bytes(0)[pos] = old ^ mask;
+        reset_counters();
+        let r = Chunk::<RTypes>::open(replay_config(None), ChunkId(0));
+        match r {
+            Ok(x) => {
+                core::mem::forget(x);
+                assert!(false, "a chunk with an altered byte inside a complete record was opened without an error");
+            }
+            Err(e) => {
+                core::mem::forget(e);
+                let f = &gfs::fs().files[0];
+                assert!(f.n_set_len == 0 && f.n_write == 0 && f.len == ends[3] as u64, "refused open modified the file");
+                kani::cover!(true, "alteration reported");
+            }
+        }
+        gfs::bytes(0)[pos] = old;
+        k += 1;
+    }
+}
+
+// record in the middle of the chunk (Commit: 4 type + 2 id + 8 checksum)
+// @harness name=c09_flip_mid_id prop=C09 tier=quick timeout=1500 fs=512
+replay_proof! { unwind = 26, crc = real, fn c09_flip_mid_id() { flip_range(2, 2, 4, 6); } }
+// @harness name=c09_flip_mid_crc_lo prop=C09 tier=quick timeout=1500 fs=512
+replay_proof! { unwind = 26, crc = real, fn c09_flip_mid_crc_lo() { flip_range(2, 2, 10, 12); } }
+// @harness name=c09_flip_mid_crc_hi prop=C09 tier=thorough timeout=1500 fs=512
+replay_proof! { unwind = 26, crc = real, fn c09_flip_mid_crc_hi() { flip_range(2, 2, 6, 10); } }
+// @harness name=c09_flip_mid_crc_lo2 prop=C09 tier=thorough timeout=1500 fs=512
+replay_proof! { unwind = 26, crc = real, fn c09_flip_mid_crc_lo2() { flip_range(2, 2, 12, 14); } }
+// type word of the record in the middle: the altered type makes the decoder
+// read the following bytes as another record kind
+// @harness name=c09_flip_mid_type prop=C09 tier=thorough timeout=3000 fs=512
+replay_proof! { unwind = 26, crc = real, fn c09_flip_mid_type() { flip_range(2, 2, 3, 4); } }
+// @harness name=c09_flip_mid_type_hi prop=C09 tier=thorough timeout=1500 fs=512
+replay_proof! { unwind = 26, crc = real, fn c09_flip_mid_type_hi() { flip_range(2, 2, 0, 3); } }
+// payload of an Append in the middle
+// @harness name=c09_flip_append_payload prop=C09 tier=quick timeout=1500 fs=512
+replay_proof! { unwind = 26, crc = real, fn c09_flip_append_payload() { flip_range(2, 3, 7, 8); } }
+// the last record of the chunk: id and checksum bytes (a changed value, not a
+// changed length)
+// @harness name=c09_flip_last_id prop=C09 tier=quick timeout=1500 fs=512
+replay_proof! { unwind = 26, crc = real, fn c09_flip_last_id() { flip_range(2, 4, 4, 6); } }
+// @harness name=c09_flip_last_crc prop=C09 tier=thorough timeout=1500 fs=512
+replay_proof! { unwind = 26, crc = real, fn c09_flip_last_crc() { flip_range(2, 4, 10, 14); } }
+
+// KNOWN FINDING KF-C09-eof-absorbed: an alteration that makes the decoder
+// want more bytes than the file holds (here: the Option tag of a final
+// TruncateAfter(None) becomes 1, so an id is expected) ends in UnexpectedEof,
+// which recovery takes for a torn tail: the record is silently cut away and
+// open succeeds.
+// @harness name=c09_known_eof_absorbed prop=C09 tier=quick timeout=1500 fs=512 kind=known
+replay_proof! {
+    unwind = 26, crc = real,
+    fn c09_known_eof_absorbed() {
+        let s = sym();
+        let ends = image(&s, 3);
+        let pos = ends[2] + 4;
+        gfs::bytes(0)[pos] = 1;
+        reset_counters();
+        let r = Chunk::<RTypes>::open(replay_config(None), ChunkId(0));
+        kani::cover!(r.is_ok(), "opened");
+        assert!(r.is_err(), "a chunk with an altered byte inside a complete record was opened without an error");
+        core::mem::forget(r);
+    }
+}
